@@ -86,6 +86,12 @@ func c09Datasets(tier string) []c09Dataset {
 	ds = append(ds, c09Dataset{Name: "33-ids", Cmds: many(1, 33)})
 	ds = append(ds, c09Dataset{Name: "65-ids", Cmds: many(2, 65)})
 	// an object past its deadline that the sweeper has not removed yet, with ids before and after it
+	// a snapshot larger than the rewrite's 4 MiB write chunk
+	var bigc [][]string
+	for i := 0; i < 2400; i++ {
+		bigc = append(bigc, []string{"SET", "big", fmt.Sprintf("s%04d", i), "STRING", strings.Repeat(string(rune('a'+i%26)), 2048)})
+	}
+	ds = append(ds, c09Dataset{Name: "5-MiB", Cmds: bigc})
 	ds = append(ds, c09Dataset{Name: "past-deadline", Advance: 0.07, Cmds: [][]string{
 		w("SET kp a POINT 1 1"), w("SET kp b POINT 1 2"), w("SET kp c EX 0.05 POINT 1 3"), w("SET kp d POINT 1 4"), w("SET kp e FIELD n 5 POINT 1 5"), w("SET kp f STRING tail"),
 		w("SET kq a EX 0.05 STRING first"), w("SET kq b POINT 2 2"),
@@ -450,6 +456,9 @@ func c09SchedScenarios(tier string) []c09Params {
 		S("flushdb", one("FLUSHDB", "SET kb z POINT 1 1")),
 		// commands whose effect depends on the document they meet (array element removal / append)
 		{Name: "jdel-array-element-ahead-of-cursor", Pre: append(append([][]string{}, pre...), []string{"SET", "kc", "j", "STRING", `{"list":["a","b","c"]}`}), Writers: [][][]string{one("JDEL kc j list.0")}, NoModel: true},
+		// the same edits on an array inside a GeoJSON Feature (JSET / JDEL re-enter SET for geometries)
+		{Name: "jset-array-append-in-feature-ahead-of-cursor", Pre: append(append([][]string{}, pre...), []string{"SET", "kc", "g", "OBJECT", `{"type":"Feature","geometry":{"type":"Point","coordinates":[1,2]},"properties":{"tags":["a","b"]}}`}), Writers: [][][]string{one("JSET kc g properties.tags.-1 c")}, NoModel: true},
+		{Name: "jdel-array-element-in-feature-ahead-of-cursor", Pre: append(append([][]string{}, pre...), []string{"SET", "kc", "g", "OBJECT", `{"type":"Feature","geometry":{"type":"Point","coordinates":[1,2]},"properties":{"tags":["a","b","c"]}}`}), Writers: [][][]string{one("JDEL kc g properties.tags.0")}, NoModel: true},
 		{Name: "jset-array-append-ahead-of-cursor", Pre: append(append([][]string{}, pre...), []string{"SET", "kc", "j", "STRING", `{"list":["a","b","c"]}`}), Writers: [][][]string{one("JSET kc j list.-1 d")}, NoModel: true},
 		S("sethook-delhook", [][]string{append(w("SETCHAN ch1"), w("NEARBY k9 FENCE POINT 50 50 100")...), w("DELCHAN ch1"), append(w("SETCHAN ch2"), w("NEARBY k9 FENCE POINT 50 50 100")...)}),
 	}
